@@ -605,19 +605,24 @@ class Visitor(ast.NodeVisitor):
         return result
 
     def visit_Compare(self, node: ast.Compare) -> Any:
-        """Recursively visit the comparators and apply the operations on them."""
+        """Visit the comparators in order and apply the operations on them, short-circuiting as Python does."""
         left = self.visit(node=node.left)
 
-        comparators = [self.visit(node=comparator) for comparator in node.comparators]
-
         # Please see "NOTE ABOUT PLACEHOLDERS AND RE-COMPUTATION"
-        if left is PLACEHOLDER or any(
-            comparator is PLACEHOLDER for comparator in comparators
-        ):
-            return PLACEHOLDER
+        has_placeholder = left is PLACEHOLDER
 
         result = None  # type: Optional[Any]
-        for comparator, op in zip(comparators, node.ops):
+        for i, (op, comparator_node) in enumerate(zip(node.ops, node.comparators)):
+            comparator = self.visit(node=comparator_node)
+
+            if comparator is PLACEHOLDER:
+                has_placeholder = True
+
+            if has_placeholder:
+                # The outcome is unknown; the remaining comparators are still visited so that
+                # the values independent of the placeholders are re-computed.
+                continue
+
             if isinstance(op, ast.Eq):
                 comparison = left == comparator
             elif isinstance(op, ast.NotEq):
@@ -641,12 +646,17 @@ class Visitor(ast.NodeVisitor):
             else:
                 raise NotImplementedError("Unhandled op of {}: {}".format(node, op))
 
-            if result is None:
-                result = comparison
-            else:
-                result = result and comparison
+            result = comparison
+
+            # ``a < b < c`` is ``a < b and b < c``: the remaining comparators are not evaluated
+            # once a comparison does not hold.
+            if i < len(node.ops) - 1 and not comparison:
+                break
 
             left = comparator
+
+        if has_placeholder:
+            return PLACEHOLDER
 
         self.recomputed_values[node] = result
         return result
